@@ -89,6 +89,10 @@ def fault_free_play(m, rng, scheme, rules, k):
     ClusterPlay.__init__(p, m, rng, scheme, n, rules, 0, leader=rng.choice([None, None, rng.randrange(1, n + 1)]))
     p.L.insert(len(p.L) - len(p.nodes), f"mark fault-free chain={CHAIN[rules]}")   # before the start lines
     m.ask(f"mark fault-free chain={CHAIN[rules]}")
+    # fault-free includes block fetching: a replica that gets a proposal before the block its QC certifies
+    # (messages of different senders are not ordered) asks its peers for that block
+    for i in p.nodes:
+        p.say(f"fetch {i} on")
     for _ in range(rng.randrange(3, 9)):
         p.settle(rounds=12)
     p.say("mark end")
